@@ -1,5 +1,6 @@
 import Gv.Model.SW
 import Gv.Spec.SW
+import Gv.Proofs.SWSpec
 /-!
 # C09 — pairwise local alignment is valid, self-consistent and optimal
 
@@ -8,6 +9,7 @@ meaning).  All statements are for **all** inputs (induction; no bound on lengths
 -/
 namespace Gv.Props.C09
 open Gv Gv.Model Gv.Model.SW
+set_option maxRecDepth 100000
 
 /-! ## validity of the trace-back, for any score / trace matrix -/
 
@@ -310,7 +312,8 @@ private theorem configure_chartopos (den : Int) (s1 s2 : Seq) (go ge : Option In
   cases go <;> cases ge <;> cases mm <;>
     simpa only [Aligner.setGapOpenScore, Aligner.setGapExtendScore, Aligner.setScore] using hn
 
-private def idxOf (a : Aligner) (c : Byte) : Option Nat :=
+/-- `chartopos[unicode.ToUpper(c)]` -/
+def idxOf (a : Aligner) (c : Byte) : Option Nat :=
   match a.chartopos with
   | none => none
   | some tbl => lookup (toUpper c) tbl
@@ -508,6 +511,183 @@ example :
       [67, 71, 65] [67, 65, 84, 67, 65]
     = Outcome.ok { score := 38, start1 := 0, start2 := 3, end1 := 2, end2 := 4, length := 3, nmatch := 2,
                    nmismatch := 0, ngaps := 1, row1 := [67, 71, 65], row2 := [67, 45, 65] } := by
+  decide
+
+/-! ## the returned rows denote a local alignment in the sense of the specification -/
+
+open Gv.Spec.SW in
+private theorem colsOfRows_spec : ∀ (r1 r2 : Seq), r1.length = r2.length →
+    (∀ p ∈ r1.zip r2, ¬ (p.1 = GAP ∧ p.2 = GAP)) →
+    ∃ cols, colsOfRows r1 r2 = some cols ∧ proj1 cols = ungap r1 ∧ proj2 cols = ungap r2 := by
+  intro r1
+  induction r1 with
+  | nil =>
+    intro r2 hl _
+    cases r2 with
+    | nil => exact ⟨[], rfl, rfl, rfl⟩
+    | cons _ _ => simp at hl
+  | cons c1 t1 ih =>
+    intro r2 hl hg
+    cases r2 with
+    | nil => simp at hl
+    | cons c2 t2 =>
+      obtain ⟨cols, hc, h1, h2⟩ := ih t2 (by simpa using hl)
+        (fun p hp => hg p (by simp only [List.zip_cons_cons]; exact List.mem_cons_of_mem _ hp))
+      have hng := hg (c1, c2) (by simp)
+      simp only [colsOfRows, hc, Option.map_some]
+      by_cases e2 : c2 = GAP
+      · have e1 : c1 ≠ GAP := fun e => hng ⟨e, e2⟩
+        subst e2
+        refine ⟨Col.gap2 c1 :: cols, by simp [e1], ?_, ?_⟩
+        · simp [proj1, h1, ungap, e1]
+        · simp [proj2, h2, ungap]
+      · by_cases e1 : c1 = GAP
+        · subst e1
+          refine ⟨Col.gap1 c2 :: cols, by simp [e2], ?_, ?_⟩
+          · simp [proj1, h1, ungap]
+          · simp [proj2, h2, ungap, e2]
+        · refine ⟨Col.pair c1 c2 :: cols, by simp [e1, e2], ?_, ?_⟩
+          · simp [proj1, h1, ungap, e1]
+          · simp [proj2, h2, ungap, e2]
+
+/-- **sw_rows_denote_local_alignment** — a valid result read column by column is a local alignment
+of the two inputs starting at the reported offsets, spelling exactly the reported substrings; this is
+the object whose score "the score of the returned alignment" refers to. -/
+theorem sw_rows_denote_local_alignment (s1 s2 : Seq) (r : Result) (v : Valid s1 s2 r) :
+    ∃ cols, Spec.SW.colsOfRows r.row1 r.row2 = some cols ∧
+      Spec.SW.IsLocal s1 s2 r.start1 r.start2 cols ∧
+      Spec.SW.proj1 cols = (s1.drop r.start1).take (r.end1 + 1 - r.start1) ∧
+      Spec.SW.proj2 cols = (s2.drop r.start2).take (r.end2 + 1 - r.start2) := by
+  obtain ⟨cols, hc, h1, h2⟩ := colsOfRows_spec r.row1 r.row2 v.rows_length v.no_all_gap
+  refine ⟨cols, hc, ⟨by have := v.bounds1; omega, by have := v.bounds2; omega, ?_, ?_⟩,
+    h1.trans v.row1, h2.trans v.row2⟩
+  · rw [h1, v.row1]; exact List.take_prefix _ _
+  · rw [h2, v.row2]; exact List.take_prefix _ _
+
+/-! ## the reference optimum of the specification -/
+
+/-- **enum_complete** — the brute-force enumeration used by the oracle on tiny inputs lists exactly
+the column lists that align a prefix of `s` with a prefix of `t` -/
+theorem enum_complete (s t : Seq) (cols : List Spec.SW.Col) :
+    cols ∈ Spec.SW.enumAnchored s t ↔ Spec.SW.Anchored s t cols :=
+  Spec.SW.mem_enumAnchored cols s t
+
+/-- **enum_optimal** — `enumBest` bounds the score of every local alignment and is the score of one -/
+theorem enum_optimal (S : Spec.SW.Scheme) (s1 s2 : Seq) :
+    (∀ p1 p2 cols, Spec.SW.IsLocal s1 s2 p1 p2 cols → Spec.SW.score S cols ≤ Spec.SW.enumBest S s1 s2) ∧
+    (∃ p1 p2 cols, Spec.SW.IsLocal s1 s2 p1 p2 cols ∧ Spec.SW.score S cols = Spec.SW.enumBest S s1 s2) :=
+  ⟨fun _ _ _ h => Spec.SW.enum_upper S h, Spec.SW.enum_attained S s1 s2⟩
+
+/-- **gotoh_upper_bound** — no local alignment of `s1`, `s2` scores more than the Gotoh optimum, for
+every substitution function and every pair of gap penalties (no sign condition needed) -/
+theorem gotoh_upper_bound (S : Spec.SW.Scheme) (s1 s2 : Seq) (p1 p2 : Nat) (cols : List Spec.SW.Col)
+    (h : Spec.SW.IsLocal s1 s2 p1 p2 cols) : Spec.SW.score S cols ≤ Spec.SW.gotohBest S s1 s2 :=
+  Spec.SW.gotoh_upper S h
+
+/-- **gotoh_attained** — some local alignment has exactly the Gotoh optimum as its score -/
+theorem gotoh_attained (S : Spec.SW.Scheme) (s1 s2 : Seq) :
+    ∃ p1 p2 cols, Spec.SW.IsLocal s1 s2 p1 p2 cols ∧ Spec.SW.score S cols = Spec.SW.gotohBest S s1 s2 :=
+  Spec.SW.gotoh_attained S s1 s2
+
+/-- consequently the two reference computations of the oracle agree on every input -/
+theorem gotoh_eq_enum (S : Spec.SW.Scheme) (s1 s2 : Seq) :
+    Spec.SW.gotohBest S s1 s2 = Spec.SW.enumBest S s1 s2 := by
+  obtain ⟨p1, p2, c, hc, e⟩ := Spec.SW.gotoh_attained S s1 s2
+  obtain ⟨q1, q2, d, hd, f⟩ := Spec.SW.enum_attained S s1 s2
+  have a := Spec.SW.enum_upper S hc
+  have b := Spec.SW.gotoh_upper S hd
+  omega
+
+/-! ## score consistency and optimality of the aligner -/
+
+/-- the scheme an aligner is configured with, as a scheme of the specification: residues are scored
+through the aligner's own index map and matrix, or by byte equality after `SetScore` -/
+def schemeOf (a : Aligner) : Spec.SW.Scheme where
+  sub c1 c2 := matchScore a (c1, (idxOf a c1).getD 0) (c2, (idxOf a c2).getD 0)
+  gapopen := a.gapopen
+  gapext := a.gapextend
+
+/-
+**sw_optimal** (full strength; OPEN — not proved).  For the repaired code:
+
+  theorem sw_optimal (den : Int) (s1 s2 : Seq) (go ge : Option Int) (mm : Option (Int × Int)) (r : Result)
+      (hgap : (configure den s1 s2 go ge mm).gapopen ≤ (configure den s1 s2 go ge mm).gapextend ∧
+              (configure den s1 s2 go ge mm).gapextend < 0)
+      (h : align (configure den s1 s2 go ge mm) true s1 s2 = Outcome.ok r)
+      (hpos : ∃ p1 p2 cols, Spec.SW.IsLocal s1 s2 p1 p2 cols ∧
+                0 < Spec.SW.score (schemeOf (configure den s1 s2 go ge mm)) cols) :
+      (∃ cols, Spec.SW.colsOfRows r.row1 r.row2 = some cols ∧
+          r.score = Spec.SW.score (schemeOf (configure den s1 s2 go ge mm)) cols) ∧
+      (∀ p1 p2 cols, Spec.SW.IsLocal s1 s2 p1 p2 cols →
+          Spec.SW.score (schemeOf (configure den s1 s2 go ge mm)) cols ≤ r.score)
+
+It is FALSE for the shipped code (`fixed = false`): see the three `example`s below.  What is proved
+instead is `sw_optimal_partial`; the two missing links are named in its docstring and are evaluated
+by the oracle on every generated input.
+-/
+
+/-- **sw_optimal_partial** — optimality *given* that the reported score equals the Gotoh optimum of
+the specification (hypothesis `hg`).  Missing for `sw_optimal`: (1) `hg` itself, i.e. that the
+running maxima of `fillMatrix_SW` compute the Gotoh recurrences (needs an invariant over `fillRows`);
+(2) that the *returned rows* — not merely some local alignment — score `r.score` (needs the
+trace/matrix consistency of the fill).  Both are checked by the oracle on every generated case
+(`fail:not-optimal`, `fail:score-self`). -/
+theorem sw_optimal_partial (a : Aligner) (fixed : Bool) (s1 s2 : Seq) (r : Result)
+    (_h : align a fixed s1 s2 = Outcome.ok r)
+    (hg : r.score = Spec.SW.gotohBest (schemeOf a) s1 s2) :
+    (∀ p1 p2 cols, Spec.SW.IsLocal s1 s2 p1 p2 cols → Spec.SW.score (schemeOf a) cols ≤ r.score) ∧
+    (∃ p1 p2 cols, Spec.SW.IsLocal s1 s2 p1 p2 cols ∧ Spec.SW.score (schemeOf a) cols = r.score) := by
+  rw [hg]
+  exact ⟨fun _ _ _ h => Spec.SW.gotoh_upper _ h, Spec.SW.gotoh_attained _ s1 s2⟩
+
+/-- score, rows of an outcome (for stating concrete instances) -/
+def scoreRows : Outcome → Option (Int × Seq × Seq)
+  | .ok r => some (r.score, r.row1, r.row2)
+  | _ => none
+
+/-- the hypotheses of `sw_optimal_partial` are satisfiable: repaired code on `CGA` / `CATCA`
+(10, −1, −3, −0.5): reported 17 (×2 = 34) = Gotoh optimum -/
+example :
+    let a := configure 2 [67, 71, 65] [67, 65, 84, 67, 65] (some (-6)) (some (-1)) (some (20, -2))
+    scoreRows (align a true [67, 71, 65] [67, 65, 84, 67, 65]) = some (34, [67, 71, 65], [67, 45, 65]) ∧
+      Spec.SW.gotohBest (schemeOf a) [67, 71, 65] [67, 65, 84, 67, 65] = 34 := by
+  decide
+
+/-- `sw_optimal` fails for the shipped code, 1: the best cell lies on the border and is not tracked.
+`A` / `A`, match 1: reported score 0, the returned rows `A` / `A` are worth 1 (×2 = 2). -/
+example :
+    let a := configure 2 [65] [65] (some (-4)) (some (-2)) (some (2, -2))
+    scoreRows (align a false [65] [65]) = some (0, [65], [65]) ∧
+      Spec.SW.colsOfRows [65] [65] = some [Spec.SW.Col.pair 65 65] ∧
+      Spec.SW.score (schemeOf a) [Spec.SW.Col.pair 65 65] = 2 := by
+  decide
+
+/-- 2: the trace-back runs through a non-positive border cell.  `AA` / `CA` (1, −1, −2, −1):
+reported 1 (×2 = 2), returned rows `AA` / `CA` worth 0. -/
+example :
+    let a := configure 2 [65, 65] [67, 65] (some (-4)) (some (-2)) (some (2, -2))
+    scoreRows (align a false [65, 65] [67, 65]) = some (2, [65, 65], [67, 65]) ∧
+      Spec.SW.colsOfRows [65, 65] [67, 65] = some [Spec.SW.Col.pair 65 67, Spec.SW.Col.pair 65 65] ∧
+      Spec.SW.score (schemeOf a) [Spec.SW.Col.pair 65 67, Spec.SW.Col.pair 65 65] = 0 := by
+  decide
+
+/-- 3: `maxa` initialised with the extension penalty.  `ACG` / `AGAG` (3, −0.5, −2.5, −0.5):
+reported 5 (×2 = 10) for rows `ACG` / `A-G` worth 3.5 (×2 = 7), which is the optimum. -/
+example :
+    let a := configure 2 [65, 67, 71] [65, 71, 65, 71] (some (-5)) (some (-1)) (some (6, -1))
+    scoreRows (align a false [65, 67, 71] [65, 71, 65, 71]) = some (10, [65, 67, 71], [65, 45, 71]) ∧
+      Spec.SW.colsOfRows [65, 67, 71] [65, 45, 71] =
+        some [Spec.SW.Col.pair 65 65, Spec.SW.Col.gap2 67, Spec.SW.Col.pair 71 71] ∧
+      Spec.SW.score (schemeOf a) [Spec.SW.Col.pair 65 65, Spec.SW.Col.gap2 67, Spec.SW.Col.pair 71 71] = 7 ∧
+      Spec.SW.gotohBest (schemeOf a) [65, 67, 71] [65, 71, 65, 71] = 7 := by
+  decide
+
+/-- 4: not optimal.  `AA` / `AC` (10, −1, −3, −0.5): reported 9 (×2 = 18) for `AA` / `AC`; `A` / `A`
+alone scores 10 (×2 = 20). -/
+example :
+    let a := configure 2 [65, 65] [65, 67] (some (-6)) (some (-1)) (some (20, -2))
+    scoreRows (align a false [65, 65] [65, 67]) = some (18, [65, 65], [65, 67]) ∧
+      Spec.SW.gotohBest (schemeOf a) [65, 65] [65, 67] = 20 := by
   decide
 
 end Gv.Props.C09
